@@ -349,13 +349,16 @@ func matchFormat(format *PresentationDefinitionClaimFormatDesignations, credenti
 		return true
 	}
 
-	if credential.Format() == "" {
-		// holder credential
-		return true
+	credentialFormat := credential.Format()
+	if credentialFormat == "" {
+		// holder credential that was not parsed (e.g. a self-attested credential created by the node itself).
+		// It will be presented as JSON-LD credential (without proof), so that's the format it must be matched as:
+		// that is what the verifier will do.
+		credentialFormat = vc.JSONLDCredentialProofFormat
 	}
 
 	asMap := map[string]map[string][]string(*format)
-	switch credential.Format() {
+	switch credentialFormat {
 	case vc.JSONLDCredentialProofFormat:
 		if entry := asMap[vc.JSONLDCredentialProofFormat]; entry != nil {
 			if len(credential.Proof) == 0 {
